@@ -53,8 +53,9 @@ type progCase struct {
 }
 
 type reqCase struct {
-	Headers [][2]string `json:"headers"`
-	Query   [][2]string `json:"query"`
+	Headers    [][2]string `json:"headers"`
+	Query      [][2]string `json:"query"`
+	RawHeaders [][2]string `json:"raw_headers,omitempty"` // set in the header map as spelled
 }
 
 func replay(sub string, raw json.RawMessage) ([]h.Failure, error) {
@@ -442,6 +443,9 @@ func checkRequest(c reqCase) []h.Failure {
 		for _, kv := range c.Headers {
 			req.Header.Add(kv[0], kv[1])
 		}
+		for _, kv := range c.RawHeaders {
+			req.Header[kv[0]] = append(req.Header[kv[0]], kv[1])
+		}
 		rec := httptest.NewRecorder()
 		var kind, msg, site string
 		h.Capture(func() {
@@ -473,8 +477,15 @@ func TestRequestOrder(t *testing.T) {
 		for _, n := range rapid.Permutation(names).Draw(t, "hn")[:rapid.IntRange(2, 6).Draw(t, "nh")] {
 			c.Headers = append(c.Headers, [2]string{n, "v" + n})
 		}
-		for _, n := range rapid.Permutation([]string{"a", "b", "c", "d", "e"}).Draw(t, "qn")[:rapid.IntRange(2, 5).Draw(t, "nq")] {
-			c.Query = append(c.Query, [2]string{n, "1"})
+		// names that differ in capitalisation only are different names of a query string
+		for i, n := range rapid.Permutation([]string{"a", "b", "c", "d", "e", "A", "B", "Token", "token", "TOKEN"}).Draw(t, "qn")[:rapid.IntRange(2, 7).Draw(t, "nq")] {
+			c.Query = append(c.Query, [2]string{n, fmt.Sprint(i + 1)})
+		}
+		if rapid.Bool().Draw(t, "rawheaders") {
+			// header names as a non-canonicalising client / proxy may deliver them
+			for i, n := range rapid.Permutation([]string{"x-trace", "X-Trace", "X-TRACE", "x-b"}).Draw(t, "rh")[:rapid.IntRange(2, 4).Draw(t, "nrh")] {
+				c.RawHeaders = append(c.RawHeaders, [2]string{n, fmt.Sprint("r", i)})
+			}
 		}
 		key, _ := json.Marshal(c)
 		h.R.Case(t, "request", string(key), c, []string{"http-request"}, true, checkRequest(c))
